@@ -141,7 +141,13 @@ mod verif_witness_c20 {
         let mut idx = vec![0usize; 1];
         loop {
             let text: String = idx.iter().map(|i| ALPHABET[*i]).collect();
-            let got = DomainGuard::new(text.clone()).is_ok();
+            let guard = DomainGuard::new(text.clone());
+            let got = guard.is_ok();
+            // "we don't accept anything that matchit would later reject": what detect_domain_conflicts' contract takes as its precondition
+            if let Ok(g) = &guard {
+                let mut fresh = matchit::Router::new();
+                if let Err(e) = fresh.insert(g.matchit_pattern(), ()) { panic!("VERIF: `{text}` is accepted but its pattern `{}` is refused by an empty matchit router: {e}", g.matchit_pattern()); }
+            }
             assert_eq!(got, model_valid(&text), "VERIF: `{text}`: accepted = {got}, the documented rules say {}", model_valid(&text));
             n += 1;
             if text.contains('{') || text.contains('.') { structured += 1; }
